@@ -77,33 +77,6 @@ package seqio
 
 // dig9(v, k) (built in): byte k of v printed right-aligned in 9 columns ("%9d"), 0 <= v < 10^9.
 
-// olay(p, n, b): the byte that the ORIGIN layout of the n residues p puts at offset b:
-// columns 0..8 of each 76-byte line hold the index of the line's first residue, then six
-// groups of " " + ten residues; "\n" closes every line (the last one may be shorter).
-//@ spec macro olay(p []byte, n int, b int) int =
-//@   ite(b%76 < 9, dig9(60*(b/76)+1, b%76),
-//@   ite(b%76 == 75 || b == olen(n)-1, '\n',
-//@   ite((b%76-9)%11 == 0, ' ',
-//@       int(p[60*(b/76) + 10*((b%76-9)/11) + (b%76-9)%11 - 1]))))
-
-//@ func NewOrigin(p []byte) (o *Origin)
-//@   prop C16 C11
-//@   reveal opos olen
-//@   requires len(p) < 999999940
-//@   ensures fresh(o) && fresh(o.Buffer) && !o.Parsed && len(o.Buffer) == olen(len(p))
-//@   guarantee layout: forall b in 0..olen(len(p)): int(o.Buffer[b]) == olay(p, len(p), b)
-//@   ensures residues: forall k in 0..len(p): o.Buffer[opos(k)] == p[k]
-//@   assigns nothing
-//@   loop 1: invariant i%60 == 0 && 0 <= i && i <= length+59 && length == len(p)
-//@   loop 1: invariant fresh(q) && len(q) == olen(length) && offset == olen(min(i, length))
-//@   loop 1: invariant forall b in 0..offset: int(q[b]) == olay(p, length, b)
-//@   loop 1: decreases length + 60 - i
-//@   loop 2: invariant j%10 == 0 && 0 <= j && j <= 60 && (j > 0 ==> i+j-10 < length)
-//@   loop 2: invariant fresh(q) && len(q) == olen(length) && offset == 76*(i/60) + 9 + j/10 + (min(i+j, length) - i)
-//@   loop 2: invariant offset == ite(j == 0, 76*(i/60) + 9, olen(min(i+j, length)) - 1)
-//@   loop 2: invariant forall b in 0..offset: int(q[b]) == olay(p, length, b)
-//@   loop 2: decreases 60 - j
-
 //@ func (o *Origin) Bytes() (r []byte)
 //@   prop C16 C11
 //@   requires !isnil(o) && len(o.Buffer) <= 1099511627776
@@ -255,6 +228,8 @@ func lemmaOriginRoundTrip(p []byte) ([]byte, int) {
 //@ spec opaque idxVal(b int) int = dig9(60*(b/76)+1, b%76)
 //@ spec opaque isNl(b int, n int) bool = b%76 >= 9 && (b%76 == 75 || b == olen(n)-1)
 //@ spec opaque isSp(b int, n int) bool = b%76 >= 9 && !(b%76 == 75 || b == olen(n)-1) && (b%76-9)%11 == 0
+// resIndex(b): which residue sits at a residue offset b.
+//@ spec opaque resIndex(b int) int = 60*(b/76) + 10*((b%76-9)/11) + (b%76-9)%11 - 1
 
 // olayOK(buf, n, b): byte b of buf is what the ORIGIN layout of n residues allows there:
 // the line index in columns 0..8, "\n" at the end of each line, " " before each group of
@@ -275,6 +250,14 @@ func lemmaOriginRoundTrip(p []byte) ([]byte, int) {
 //@   prop C16
 //@   requires 0 <= g && g%10 == 0 && 0 <= k && k < 10 && g + k < n
 //@   ensures !isIdx(opos(g) + k) && !isNl(opos(g) + k, n) && !isSp(opos(g) + k, n) && opos(g) + k == opos(g + k) && opos(g) + k + 1 < olen(n)
+//@ lemma posResidueAt(g, b, n int)
+//@   prop C16
+//@   requires 0 <= g && g%10 == 0 && opos(g) <= b && b < opos(g) + 10 && g + (b - opos(g)) < n
+//@   ensures !isIdx(b) && !isNl(b, n) && !isSp(b, n) && resIndex(b) == g + (b - opos(g)) && b + 1 < olen(n)
+//@ lemma posBefore(k, g int)
+//@   prop C16
+//@   requires 0 <= k && k < g && g%10 == 0
+//@   ensures opos(k) + 2 <= opos(g) && 10 <= opos(k)
 //@ lemma posNewline(i, n int)
 //@   prop C16
 //@   requires 0 <= i && i%60 == 0 && i < n
@@ -335,3 +318,37 @@ func lemmaOriginRoundTrip(p []byte) ([]byte, int) {
 //@   loop 3: invariant 0 <= k && k <= 10 && i+j+k <= length && i+j < length && j < 60 && offset == opos(i+j) + k
 //@   loop 3: use posResidue(i+j, k, length)
 //@   loop 3: decreases 10 - k
+
+// olayX(p, buf, n, b): byte b of buf is exactly what the layout of the n residues p puts there.
+//@ spec macro olayX(p []byte, buf []byte, n int, b int) bool =
+//@   ite(isIdx(b), int(buf[b]) == idxVal(b), ite(isNl(b, n), buf[b] == '\n', ite(isSp(b, n), buf[b] == ' ', buf[b] == p[resIndex(b)])))
+
+//@ func NewOrigin(p []byte) (o *Origin)
+//@   prop C16 C11
+//@   requires len(p) < 999999940
+//@   use olenZero(0)
+//@   use olenBound(len(p))
+//@   ensures fresh(o) && fresh(o.Buffer) && !o.Parsed && len(o.Buffer) == olen(len(p))
+//@   guarantee layout: forall b in 0..olen(len(p)): olayX(p, o.Buffer, len(p), b)
+//@   ensures residues: forall k in 0..len(p): o.Buffer[opos(k)] == p[k]
+//@   assigns nothing
+//@   loop 1: invariant i%60 == 0 && 0 <= i && i <= length+59 && length == len(p) && offset == olen(min(i, length)) && fresh(q) && len(q) == olen(length) && offset <= len(q)
+//@   loop 1: invariant forall b in 0..offset: olayX(p, q, length, b)
+//@   loop 1: invariant forall k in 0..min(i, length): q[opos(k)] == p[k] && opos(k) < offset
+//@   loop 1: use forall b: posIndex(i, b, length)
+//@   loop 1: use posIndex(i, olen(i), length)
+//@   loop 1: use posSpace(i, 0, length)
+//@   loop 1: use posNewline(i, length)
+//@   loop 1: decreases length + 60 - i
+//@   loop 2: invariant j%10 == 0 && 0 <= j && j <= 60 && i < length && fresh(q) && len(q) == olen(length)
+//@   loop 2: invariant offset == ite(j == 0, olen(i) + 9, ite(i+j <= length, olen(i) + 9 + 11*(j/10), olen(length) - 1)) && offset < len(q)
+//@   loop 2: invariant j > 0 ==> offset == olen(min(i+j, length)) - 1
+//@   loop 2: invariant forall b in 0..offset: olayX(p, q, length, b)
+//@   loop 2: invariant forall k in 0..min(i+j, length): q[opos(k)] == p[k] && opos(k) < offset
+//@   loop 2: use posSpace(i, j, length)
+//@   loop 2: use posGroupEnd(i, j, length)
+//@   loop 2: use olenMonoLe(min(i+j+10, length), length)
+//@   loop 2: use forall b: posResidueAt(i+j, b, length)
+//@   loop 2: use forall k: oposGroup(i+j, k)
+//@   loop 2: use forall k: posBefore(k, i+j)
+//@   loop 2: decreases 60 - j
